@@ -581,6 +581,8 @@ func (m *Manager) HandleStreamData(streamID uint64, flags uint8, data []byte) er
 		}
 	}
 
+	verifPoint("HandleStreamData:between-data-and-fin")
+
 	// Handle FIN flags after the frame's data has been queued: a reader that is
 	// already blocked in Read wakes up on the FIN signal and would otherwise see
 	// end-of-stream before the data that arrived together with it.
